@@ -135,17 +135,38 @@ def run(ctx: Ctx):
         sweep_differential(ctx, f"all-cfgs-{n}-blocks-outdeg<=2", REQ, shards, impl, holds, None, nontrivial)
     rng = ctx.rng
     cases = []
-    for _ in range(4000 if thorough else 600):
+    for _ in range(6000 if thorough else 1500):
         n = rng.randint(2, 10)
         g, kinds = [], []
         for b in range(n):
             k = rng.choices(["term", "op", "empty"], [10, 1, 1])[0]
-            deg = rng.choices([0, 1, 2, 3, 4], [2, 4, 5, 1, 1])[0] if k == "term" else 0
+            deg = rng.choices([0, 1, 2, 3, 4], [2, 4, 5, 2, 1])[0] if k == "term" else 0
             # bias towards forward edges so that large reachable sub-graphs with joins appear
-            g.append([rng.randrange(n) if rng.random() < 0.4 else min(n - 1, b + rng.randint(0, 2)) for _ in range(deg)])
+            ss = [rng.randrange(n) if rng.random() < 0.4 else min(n - 1, b + rng.randint(0, 2)) for _ in range(deg)]
+            if deg >= 3 and rng.random() < 0.5:
+                ss[-1] = ss[0]          # non-adjacent repeated successor [a, b, a]
+            g.append(ss)
             kinds.append(k)
         cases.append({"g": g, "kinds": kinds})
     differential(ctx, DiffSpec("random-cfgs-2..10-blocks", REQ, cases, impl,
+                               lambda c: f"c24_case {coq_cfg(eff_succ(c))}", holds, None, nontrivial))
+    # layered DAGs with joins and a few back edges whose blocks are listed in a random (non-topological)
+    # order: the fixpoint then needs several sweeps, which is where a premature exit shows
+    cases = []
+    for _ in range(3000 if thorough else 800):
+        n = rng.randint(4, 8)
+        g = [[] for _ in range(n)]
+        for b in range(n - 1):
+            outs = {rng.randint(b + 1, n - 1) for _ in range(rng.randint(1, 2))}
+            if rng.random() < 0.15:
+                outs.add(rng.randint(0, b))
+            g[b] = sorted(outs)
+        perm = list(range(1, n))
+        rng.shuffle(perm)
+        perm = [0] + perm                       # new index of old block i is perm.index(i); entry stays first
+        pos = {old: new for new, old in enumerate(perm)}
+        cases.append({"g": [[pos[s] for s in g[old]] for old in perm]})
+    differential(ctx, DiffSpec("permuted-layered-dags-4..8-blocks", REQ, cases, impl,
                                lambda c: f"c24_case {coq_cfg(eff_succ(c))}", holds, None, nontrivial))
     ctx.coverage["rule"] = __doc__.split("\n\n", 1)[1][:900]
     ctx.coverage["exhaustive"] = True
